@@ -394,4 +394,109 @@ theorem pendRune_of_bytes (p : List Byte) (h : EndsRune p) : PendRune (tokenize 
     · exact ⟨tokenize q, Or.inr (Or.inl (by rw [h1]))⟩
     · exact ⟨tokenize q, Or.inr (Or.inr ⟨r, by rw [h1], hr⟩)⟩
 
+/-! ### `utf8.EncodeRune` always yields a complete character -/
+
+theorem cont_or : ∀ k : Fin 64, isCont (UInt8.ofNat (0x80 ||| k.val)) = true := by decide +kernel
+
+theorem valid2_of : ∀ x : Fin 32, 2 ≤ x.val → ∀ z : Fin 64,
+    validRuneB [UInt8.ofNat (0xC0 ||| x.val), UInt8.ofNat (0x80 ||| z.val)] = true := by decide +kernel
+
+theorem valid3_lead : ∀ x : Fin 16, ∀ y : Fin 64, (1 ≤ x.val ∨ 32 ≤ y.val) → ¬ (x.val = 13 ∧ 32 ≤ y.val) →
+    validRuneB [UInt8.ofNat (0xE0 ||| x.val), UInt8.ofNat (0x80 ||| y.val), 0x80] = true := by decide +kernel
+
+theorem valid4_lead : ∀ x : Fin 8, ∀ y : Fin 64, (1 ≤ x.val ∨ 16 ≤ y.val) → (x.val < 4 ∨ (x.val = 4 ∧ y.val < 16)) →
+    validRuneB [UInt8.ofNat (0xF0 ||| x.val), UInt8.ofNat (0x80 ||| y.val), 0x80, 0x80] = true := by decide +kernel
+
+theorem valid3_swap {a b c : Byte} (hc : isCont c = true) (h : validRuneB [a, b, 0x80] = true) : validRuneB [a, b, c] = true := by
+  simp only [validRuneB, Bool.and_eq_true] at h ⊢
+  refine ⟨h.1, ?_⟩
+  have h2 := h.2
+  split at h2
+  · simp only [Bool.and_eq_true] at h2 ⊢
+    exact ⟨h2.1, hc⟩
+  · cases h2
+
+theorem valid4_swap {a b c d : Byte} (hc : isCont c = true) (hd : isCont d = true) (h : validRuneB [a, b, 0x80, 0x80] = true) :
+    validRuneB [a, b, c, d] = true := by
+  simp only [validRuneB, Bool.and_eq_true] at h ⊢
+  refine ⟨h.1, ?_⟩
+  have h2 := h.2
+  split at h2
+  · simp only [Bool.and_eq_true] at h2 ⊢
+    exact ⟨⟨h2.1.1, hc⟩, hd⟩
+  · cases h2
+
+theorem and3F (n : Nat) : n &&& 0x3F = n % 64 := by
+  have := Nat.and_two_pow_sub_one_eq_mod n 6
+  simpa using this
+
+
+theorem runeLen_cases (r : Int) :
+    (runeLen r = none) ∨
+    (runeLen r = some 1 ∧ 0 ≤ r ∧ r ≤ 0x7F) ∨
+    (runeLen r = some 2 ∧ 0x80 ≤ r ∧ r ≤ 0x7FF) ∨
+    (runeLen r = some 3 ∧ 0x800 ≤ r ∧ r ≤ 0xFFFF ∧ ¬ (0xD800 ≤ r ∧ r ≤ 0xDFFF)) ∨
+    (runeLen r = some 4 ∧ 0x10000 ≤ r ∧ r ≤ 0x10FFFF) := by
+  unfold runeLen
+  split
+  · exact Or.inl rfl
+  · split
+    · exact Or.inr (Or.inl ⟨rfl, by omega, by omega⟩)
+    · split
+      · exact Or.inr (Or.inr (Or.inl ⟨rfl, by omega, by omega⟩))
+      · split
+        · exact Or.inl rfl
+        · rename_i hs
+          split
+          · refine Or.inr (Or.inr (Or.inr (Or.inl ⟨rfl, by omega, by omega, ?_⟩)))
+            intro h; apply hs; simp [h.1, h.2]
+          · split
+            · exact Or.inr (Or.inr (Or.inr (Or.inr ⟨rfl, by omega, by omega⟩)))
+            · exact Or.inl rfl
+
+/-- Whatever the rune (valid or not: invalid ones encode U+FFFD), its encoding is one complete character. -/
+theorem valid_encodeRune (r : Int) : validRuneB (encodeRune r) = true := by
+  rcases runeLen_cases r with h | ⟨h, h0, h1⟩ | ⟨h, h0, h1⟩ | ⟨h, h0, h1, hs⟩ | ⟨h, h0, h1⟩
+  · simp only [encodeRune, h]; decide
+  · simp only [encodeRune, h, validRuneB]
+    have : r.toNat ≤ 127 := by omega
+    have hlt : r.toNat < 256 := by omega
+    simp only [decide_eq_true_eq]
+    show UInt8.ofNat r.toNat < 128
+    rw [UInt8.lt_iff_toNat_lt]
+    simp [UInt8.toNat_ofNat', Nat.mod_eq_of_lt hlt]
+    omega
+  · simp only [encodeRune, h]
+    have hn : 0x80 ≤ r.toNat ∧ r.toNat ≤ 0x7FF := by omega
+    rw [Nat.shiftRight_eq_div_pow, and3F]
+    have hx : r.toNat / 2 ^ 6 < 32 := by omega
+    have hz : r.toNat % 64 < 64 := Nat.mod_lt _ (by decide)
+    exact valid2_of ⟨r.toNat / 2 ^ 6, hx⟩ (by show 2 ≤ r.toNat / 2 ^ 6; omega) ⟨r.toNat % 64, hz⟩
+  · simp only [encodeRune, h]
+    have hn : 0x800 ≤ r.toNat ∧ r.toNat ≤ 0xFFFF := by omega
+    have hsn : ¬ (0xD800 ≤ r.toNat ∧ r.toNat ≤ 0xDFFF) := by omega
+    rw [Nat.shiftRight_eq_div_pow, Nat.shiftRight_eq_div_pow, and3F, and3F]
+    have hx : r.toNat / 2 ^ 12 < 16 := by omega
+    have hy : r.toNat / 2 ^ 6 % 64 < 64 := Nat.mod_lt _ (by decide)
+    have hz : r.toNat % 64 < 64 := Nat.mod_lt _ (by decide)
+    apply valid3_swap (cont_or ⟨r.toNat % 64, hz⟩)
+    exact valid3_lead ⟨r.toNat / 2 ^ 12, hx⟩ ⟨r.toNat / 2 ^ 6 % 64, hy⟩
+      (by show 1 ≤ r.toNat / 2 ^ 12 ∨ 32 ≤ r.toNat / 2 ^ 6 % 64; omega)
+      (by show ¬ (r.toNat / 2 ^ 12 = 13 ∧ 32 ≤ r.toNat / 2 ^ 6 % 64); omega)
+  · simp only [encodeRune, h]
+    have hn : 0x10000 ≤ r.toNat ∧ r.toNat ≤ 0x10FFFF := by omega
+    rw [Nat.shiftRight_eq_div_pow, Nat.shiftRight_eq_div_pow, Nat.shiftRight_eq_div_pow, and3F, and3F, and3F]
+    have hx : r.toNat / 2 ^ 18 < 8 := by omega
+    have hy : r.toNat / 2 ^ 12 % 64 < 64 := Nat.mod_lt _ (by decide)
+    have hz1 : r.toNat / 2 ^ 6 % 64 < 64 := Nat.mod_lt _ (by decide)
+    have hz2 : r.toNat % 64 < 64 := Nat.mod_lt _ (by decide)
+    apply valid4_swap (cont_or ⟨r.toNat / 2 ^ 6 % 64, hz1⟩) (cont_or ⟨r.toNat % 64, hz2⟩)
+    exact valid4_lead ⟨r.toNat / 2 ^ 18, hx⟩ ⟨r.toNat / 2 ^ 12 % 64, hy⟩
+      (by show 1 ≤ r.toNat / 2 ^ 18 ∨ 16 ≤ r.toNat / 2 ^ 12 % 64; omega)
+      (by show r.toNat / 2 ^ 18 < 4 ∨ (r.toNat / 2 ^ 18 = 4 ∧ r.toNat / 2 ^ 12 % 64 < 16); omega)
+
+
+theorem endsRune_encodeRune (r : Int) : EndsRune (encodeRune r) :=
+  Or.inr ⟨[], encodeRune r, by simp, valid_encodeRune r⟩
+
 end Redact
